@@ -68,6 +68,8 @@ func basicValues(t reflect.Type) []namedValue {
 		return []namedValue{{"Eq", reflect.ValueOf(stackage.Eq).Convert(reflect.TypeOf(stackage.Eq))}, nv("userOp", userOp{"~=", "ctx"}), {"nil-op", reflect.Zero(opType)}, nv("ComparisonOperator(0)", stackage.ComparisonOperator(0)), nv("sliceOp", sliceOp{"=~", "ctx"}), nv("(*ComparisonOperator)(nil)", (*stackage.ComparisonOperator)(nil))}
 	case anyType:
 		return []namedValue{nv(`"v"`, "v"), nv("7", 7), {"nil", reflect.Zero(anyType)}, nv("Stack", stackage.Or().Push("n")), nv("Condition", stackage.Cond("ck", stackage.Eq, "cv")),
+			// Stacks that turn elements away themselves (as Transfer destinations, comparands, expressions)
+			nv("no-nesting Stack", stackage.Or().SetNoNesting(true)), nv("capped full Stack", stackage.List(1).Push("full")), nv("Stack with rejecting push policy", stackage.And().SetPushPolicy(func(...any) error { return errCat })),
 			nv("[]string{q}", []string{"q"}), nv("'r'", 'r'), nv("*log.Logger", catLogger), nv("LogLevel3", stackage.LogLevel3), nv(`"stdout-no"`, "off")}
 	}
 	if t.Kind() == reflect.Func {
@@ -124,6 +126,7 @@ func awkwardAny() []namedValue {
 		nv("[]any{}", []any{}), nv("[]any{nil}", []any{nil}), nv("[]int(nil)", []int(nil)), nv("[0]int{}", [0]int{}), nv("reflect.Value{}", reflect.Value{}),
 		nv("error", errCat), nv("(*ptrOp)(nil)", (*ptrOp)(nil)), nv("uintptr(0)", uintptr(0)), nv("unsafe.Pointer(nil)", unsafe.Pointer(nil)), nv("complex", complex(1, 2)),
 		nv("int8(-1)", int8(-1)), nv("uint64 max", uint64(math.MaxUint64)), nv(`"\x00"`, "\x00"), nv(`""`, ""), nv("Auxiliary(nil)", stackage.Auxiliary(nil)),
+		nv("no-nesting Stack", stackage.Or().SetNoNesting(true)), nv("capped full Stack", stackage.List(1).Push("full")), nv("Stack with rejecting push policy", stackage.And().SetPushPolicy(func(...any) error { return errCat })),
 		nv("Stack", stackage.And().Push("in", nil)), nv("Condition", stackage.Cond("k", stackage.Lt, 3)), nv("StackAlias", StackAlias(stackage.List().Push("al"))), nv("*CondAlias", func() any { c := CondAlias(stackage.Cond("a", stackage.Eq, "b")); return &c }()),
 		nv(`Cond("",Ne,"v")`, stackage.Cond("", stackage.Ne, "v")), nv("Init+SetOperator", func() any { var c stackage.Condition; c.Init(); c.SetOperator(stackage.Ge); return c }()),
 		nv("&freed Stack", &freedS), nv("&freed Condition", &freedC), nv("&StackAlias{}", &StackAlias{}), nv("&Condition{}", &stackage.Condition{}),
